@@ -92,7 +92,7 @@ def prepare_shape(tree):
             out.append("PDirs")
         elif t == "if self.save_fn:\n    self.save_function_to_disk()":
             out.append("PFunction")
-        elif t == "self.save_info(combos=combos, cases=cases, fn_args=fn_args)":
+        elif t == "self.save_info(combos=combos, cases=cases, fn_args=fn_args, constants=constants)":
             out.append("PSettings")
         else:
             raise Refused(s, "Crop.prepare")
